@@ -46,6 +46,9 @@ def is_framed(node):
         'sapling_state',
         'sapling_transaction',
         'sapling_transaction_deprecated',
+        'constant',
+        'Lambda_rec',
+        'Ticket',
     }:
         return True
     elif node['prim'] in {
